@@ -161,6 +161,7 @@ type drv struct {
 	del      func() cmd // nil when the entity cannot be deleted
 	cas      func(content int, cidx uint64) cmd
 	contents int
+	seed     func(g *gen) // optional: extra state installed after establish (stored status)
 }
 
 var kvVals = []string{"v1", "v2", ""}
@@ -286,8 +287,18 @@ func cfgDrivers(kind, name string) []drv {
 		}
 		return statuses[(i/2)%3]
 	}
+	var seed func(g *gen)
+	if ctl {
+		// give the stored entry a non-default status through a matching status-cas
+		seed = func(g *gen) {
+			if cur := read(g.ws.store()); cur.present && g.r.Chance(65) {
+				run.Tag("cfg:stored-status-seeded")
+				g.exec(cfgCasCmd(true, kind, name, cur.content, statuses[1+g.r.Intn(2)], cur.modify))
+			}
+		}
+	}
 	return []drv{
-		{typ: "configCas", key: key, read: read, set: set, del: del, contents: 6, cas: func(i int, c uint64) cmd {
+		{typ: "configCas", key: key, read: read, set: set, del: del, contents: 6, seed: seed, cas: func(i int, c uint64) cmd {
 			x := cfgCasCmd(false, kind, name, cfgVals[i%2], stOf(i), c)
 			x.cond = entityCond(entSpec{typ: "configCas", rule: "set", cidx: c, read: read, want: func(pre ent) (string, string) {
 				if ctl && pre.present {
@@ -297,13 +308,13 @@ func cfgDrivers(kind, name string) []drv {
 			}})
 			return x
 		}},
-		{typ: "configStatusCas", key: key, read: read, set: set, del: del, contents: 6, cas: func(i int, c uint64) cmd {
+		{typ: "configStatusCas", key: key, read: read, set: set, del: del, contents: 6, seed: seed, cas: func(i int, c uint64) cmd {
 			x := cfgCasCmd(true, kind, name, cfgVals[i%2], stOf(i), c)
 			x.cond = entityCond(entSpec{typ: "configStatusCas", rule: "set", cidx: c, read: read,
 				want: func(ent) (string, string) { return cfgVals[i%2], stOf(i) }})
 			return x
 		}},
-		{typ: "configDeleteCas", key: key, read: read, set: set, del: del, contents: 6, cas: func(_ int, c uint64) cmd {
+		{typ: "configDeleteCas", key: key, read: read, set: set, del: del, contents: 6, seed: seed, cas: func(_ int, c uint64) cmd {
 			x := cfgDelCasCmd(kind, name, c)
 			x.cond = entityCond(entSpec{typ: "configDeleteCas", rule: "del", cidx: c, read: read, isDel: true})
 			return x
@@ -400,6 +411,10 @@ func (g *gen) establish(d drv, pre string) {
 			do(d.del())
 		}
 		do(d.set(g.r.Intn(d.contents)))
+	}
+	if d.seed != nil {
+		d.seed(g)
+		g.remember(d.key, d.read)
 	}
 	run.Tag("prestate:" + pre)
 }
